@@ -124,7 +124,29 @@ static int inst_ptm_fast_eval_s(decoder_t *d, void **o)
     int i;
     if (!p) return 0;
     for (i = 0; i < p->n_fast_hist; i++) o[i] = p->hist + i;
+#ifdef C08_HAS_ptm_mgau_s__replay
+    /* second-pass history (same element type) */
+    for (i = 0; i < p->n_fast_hist; i++) o[p->n_fast_hist + i] = p->replay + i;
+    return 2 * p->n_fast_hist;
+#else
     return p->n_fast_hist;
+#endif
+}
+/* the i-th top-N history slot over all histories the scorer keeps */
+static int n_fast_slots(ptm_mgau_t *p)
+{
+#ifdef C08_HAS_ptm_mgau_s__replay
+    return 2 * p->n_fast_hist;
+#else
+    return p->n_fast_hist;
+#endif
+}
+static ptm_fast_eval_t *fast_slot(ptm_mgau_t *p, int i)
+{
+#ifdef C08_HAS_ptm_mgau_s__replay
+    if (i >= p->n_fast_hist) return p->replay + (i - p->n_fast_hist);
+#endif
+    return p->hist + i;
 }
 static int inst_s2_semi_mgau_s(decoder_t *d, void **o) { if (!s2_of(d)) return 0; o[0] = s2_of(d); return 1; }
 static int inst_feat_s(decoder_t *d, void **o) { o[0] = d->acmod->fcb; return 1; }
@@ -195,11 +217,11 @@ static int buf_spans(decoder_t *d, const char *name, span_t *o)
     else if (!strcmp(name, "noise_stats_s.signal[]")) { if (ns) SP(ns->signal, (size_t)ns->num_filters * sizeof(powspec_t)); }
     else if (!strcmp(name, "noise_stats_s.gain[]")) { if (ns) SP(ns->gain, (size_t)ns->num_filters * sizeof(powspec_t)); }
     else if (!strcmp(name, "ptm_fast_eval_s.topn[]")) {
-        if (pm) for (i = 0; i < pm->n_fast_hist && n < MAXSPAN; i++)
-            SP(pm->hist[i].topn[0][0], (size_t)pm->g->n_mgau * pm->g->n_feat * pm->max_topn * sizeof(ptm_topn_t));
+        if (pm) for (i = 0; i < n_fast_slots(pm) && n < MAXSPAN; i++)
+            SP(fast_slot(pm, i)->topn[0][0], (size_t)pm->g->n_mgau * pm->g->n_feat * pm->max_topn * sizeof(ptm_topn_t));
     } else if (!strcmp(name, "ptm_fast_eval_s.mgau_active[]")) {
-        if (pm) for (i = 0; i < pm->n_fast_hist && n < MAXSPAN; i++)
-            SP(pm->hist[i].mgau_active, bitvec_bytes(pm->g->n_mgau));
+        if (pm) for (i = 0; i < n_fast_slots(pm) && n < MAXSPAN; i++)
+            SP(fast_slot(pm, i)->mgau_active, bitvec_bytes(pm->g->n_mgau));
     } else if (!strcmp(name, "hmm_context_s.st_sen_scr[]")) { if (fs) SP(fs->hmmctx->st_sen_scr, (size_t)fs->hmmctx->n_emit_state * sizeof(int32)); }
     else if (!strcmp(name, "search_module_s.hyp_str[]")) { if (d->search && d->search->hyp_str) SP(d->search->hyp_str, strlen(d->search->hyp_str)); }
     else if (!strcmp(name, "ptm_mgau_s.g[]")) {
@@ -360,6 +382,9 @@ static void cmd_chk(decoder_t *d)
     R("acmod_s.senscr_frame", a->senscr_frame == -1, a->senscr_frame, "-1");
     R("acmod_s.n_senone_active", a->n_senone_active == 0, a->n_senone_active, "0");
     R("mgau_s.frame_idx", a->mgau->frame_idx == 0, a->mgau->frame_idx, "0");
+#ifdef C08_HAS_mgau_s__hw_frame
+    R("mgau_s.hw_frame", a->mgau->hw_frame == 0, a->mgau->hw_frame, "0");
+#endif
     R("fe_s.num_overflow_samps", fe->num_overflow_samps == 0, fe->num_overflow_samps, "0");
     R("fe_s.overflow_samps", all_zero(fe->overflow_samps, fe->frame_size * sizeof(*fe->overflow_samps)), 0, "all-zero");
     R("fe_s.pre_emphasis_prior", fe->pre_emphasis_prior == 0, (long long)fe->pre_emphasis_prior, "0");
@@ -483,25 +508,26 @@ static void cmd_poison(decoder_t *d, uint64_t seed, int mask)
         }
         if (pm) {
             /* top-N history: any list of distinct valid codewords with any scores is a legal old content */
-            for (i = 0; i < pm->n_fast_hist; i++)
+            for (i = 0; i < n_fast_slots(pm); i++)
                 for (j = 0; j < pm->g->n_mgau; j++)
                     for (k = 0; k < pm->g->n_feat; k++) {
+                        ptm_topn_t *tn = fast_slot(pm, i)->topn[j][k];
                         int base = (int)(vf_rand(&PRNG) % (uint64_t)pm->g->n_density);
                         int step = 1 + (int)(vf_rand(&PRNG) % 7);
                         for (m = 0; m < pm->max_topn; m++) {
-                            pm->hist[i].topn[j][k][m].cw = (base + m * step) % pm->g->n_density;
-                            pm->hist[i].topn[j][k][m].score = (int32)(vf_rand(&PRNG) % 2000000) - 1900000;
+                            tn[m].cw = (base + m * step) % pm->g->n_density;
+                            tn[m].score = (int32)(vf_rand(&PRNG) % 2000000) - 1900000;
                         }
                         /* keep them distinct when n_density is small */
                         for (m = 1; m < pm->max_topn; m++) {
                             int q, dup = 0;
                             for (q = 0; q < m; q++)
-                                if (pm->hist[i].topn[j][k][q].cw == pm->hist[i].topn[j][k][m].cw) dup = 1;
+                                if (tn[q].cw == tn[m].cw) dup = 1;
                             if (dup)
-                                for (m = 0; m < pm->max_topn; m++) pm->hist[i].topn[j][k][m].cw = (base + m) % pm->g->n_density;
+                                for (m = 0; m < pm->max_topn; m++) tn[m].cw = (base + m) % pm->g->n_density;
                         }
                     }
-            printf("P ptm_fast_eval_s.topn[] %zu\n", (size_t)pm->n_fast_hist * pm->g->n_mgau * pm->g->n_feat * pm->max_topn * sizeof(ptm_topn_t));
+            printf("P ptm_fast_eval_s.topn[] %zu\n", (size_t)n_fast_slots(pm) * pm->g->n_mgau * pm->g->n_feat * pm->max_topn * sizeof(ptm_topn_t));
             pm->f = pm->hist + (vf_rand(&PRNG) % (uint64_t)pm->n_fast_hist);
             printf("P ptm_mgau_s.f %zu\n", sizeof pm->f);
         }
@@ -577,7 +603,7 @@ static void cmd_result(decoder_t *d, int flags)
                     lines[nl++] = strdup(buf);
                 }
             }
-            qsort(lines, nl, sizeof(char *), cmp_str);
+            if (nl > 0) qsort(lines, nl, sizeof(char *), cmp_str);   /* a lattice may have nodes but no links */
             for (i = 0; i < nl; i++) { h = fnv(h, lines[i], strlen(lines[i]) + 1); free(lines[i]); }
             free(lines);
             printf("L nodes=%d links=%d nframes=%d start=%d:%d end=%d:%d digest=%016llx\n", nn, nl, dag->n_frames,
